@@ -371,8 +371,10 @@ def mkContainer (num : Nat) (members : List (Nat × Obj × Obj × Ch × Bytes)) 
   Newest-section entries are never shadowed, so this follows from the statement "a file in which
   the object found at a cross-reference offset carries a different identifier than its entry is
   rejected".  Identifiers bound to a cross-reference stream object are exempt from (b): the loader
-  registers those while walking the /Prev chain, from the chain's offsets.  When the newest section
-  is not a readable table nothing is claimed. -/
+  registers those while walking the /Prev chain, from the chain's offsets.  The claim is made ONLY
+  when the newest section is a strictly well-formed table followed by `trailer` (see `tableUses`);
+  in doubt nothing is claimed - a file whose table is not contiguous is not a well-formed document
+  and the property says nothing about it. -/
 
 def indexOf (pat : Bytes) : Bytes → Option Nat
   | [] => none
@@ -385,23 +387,37 @@ def lastIndexOf (pat : Bytes) : Bytes → Option Nat
     | some k => some (k + 1)
     | none => if pat.isPrefixOf (b :: t) then some 0 else none
 
-/-- the in-use entries `(n, g, ofs)` of the table at `cur` (after the `xref` keyword), read by
-    position; `none` = not readable as a table -/
-def tableUses (s : Bytes) : Nat → Nat → List (Nat × Nat × Nat) → Option (List (Nat × Nat × Nat))
-  | 0, _, acc => some acc
-  | f + 1, cur, acc =>
-    match XrefSpec.scanHeader s cur with
-    | none => if acc.isEmpty then none else some acc
-    | some (st, cnt, first) =>
-      if first + 20 * cnt > s.length then none
-      else
-        let es := (List.range cnt).map fun k => (st + k, XrefSpec.entryAt s (first + 20 * k))
-        if es.any fun e => e.2.isNone then none
+/-- what must follow the last subsection for the reader to claim anything: optional white space /
+    comments, then the keyword `trailer` -/
+def tableEnd (s : Bytes) (cur : Nat) : Bool :=
+  (bs "trailer").isPrefixOf (s.drop (XrefSpec.skipWsComments (s.length + 1) s cur))
+
+/-- The in-use entries `(n, g, ofs)` of the table whose first subsection header is looked for at `cur`
+    (just after the `xref` keyword), read by position and STRICTLY: the first header may be preceded by
+    white space / comments (as `WhitespaceEOL` after the keyword allows); every entry is exactly 20 bytes
+    in the fixed form; a further subsection header must start IMMEDIATELY after the last entry of the
+    previous subsection, after blanks (space, NUL, tab, form feed) at most - exactly what `XrefSectP`
+    looks at before it decides whether the section goes on; otherwise the table must be followed by
+    optional white space and `trailer`.  Anything else (a blank line inside the table, junk after it,
+    an entry out of form): `none` - the file is not a strictly well-formed table and nothing is claimed. -/
+def tableUses (s : Bytes) : Nat → Nat → Bool → List (Nat × Nat × Nat) → Option (List (Nat × Nat × Nat))
+  | 0, _, _, _ => none
+  | f + 1, cur, isFirst, acc =>
+    let c1 := cur + ((s.drop cur).takeWhile XrefSpec.isBlank).length
+    if !isFirst && !((s[c1]?).any XrefSpec.isDig) then (if tableEnd s cur then some acc else none)
+    else
+      match XrefSpec.scanHeader s (if isFirst then cur else c1) with
+      | none => none
+      | some (st, cnt, first) =>
+        if first + 20 * cnt > s.length then none
         else
-          let uses := es.filterMap fun e => match e.2 with
-            | some (info, gen, true) => some (e.1, gen, info)
-            | _ => none
-          tableUses s f (first + 20 * cnt) (acc ++ uses)
+          let es := (List.range cnt).map fun k => (st + k, XrefSpec.entryAt s (first + 20 * k))
+          if es.any fun e => e.2.isNone then none
+          else
+            let uses := es.filterMap fun e => match e.2 with
+              | some (info, gen, true) => some (e.1, gen, info)
+              | _ => none
+            tableUses s f (first + 20 * cnt) false (acc ++ uses)
 
 /-- the identifier spelled by an indirect-object header at `ofs` -/
 def headerAt (s : Bytes) (ofs : Nat) : Option (Nat × Nat) :=
@@ -433,7 +449,7 @@ def newestTableUses (file : Bytes) : Option (Bytes × List (Nat × Nat × Nat)) 
       | some (x, _) =>
         let i0 := XrefSpec.skipWsComments (s.length + 1) s x
         if !((bs "xref").isPrefixOf (s.drop i0)) then none
-        else (tableUses s (s.length + 1) (i0 + 4) []).map fun u => (s, u)
+        else (tableUses s (s.length + 1) (i0 + 4) true []).map fun u => (s, u)
 
 /-- `none` = nothing wrong (or nothing claimed); `some msg` = an accepted load that contradicts the
     newest table.  `defined` = identifiers the implementation reports, with "is a cross-reference
